@@ -593,23 +593,32 @@ Section Oracles.
     sset (cons_key (cs_latest cs)) (VCons cons)
          (set_metadata (sset client_key (VClient cs) s) (cs_latest cs) now).
 
-  (** ** client_state.go: verifyDelayPeriodPassed — the uint64 addition wraps.
-      [guard = false] is the code as it stands (finding D12 / tm-delay-overflow);
-      [guard = true] is the one-condition repair proposed in
-      /var/tmp/fixes/C07 (refuse when the sum wrapped: validTime < processedTime).
-      The correspondence check reports which of the two the tree implements. *)
-  Definition verify_delay_period_passed (guard : bool) (s : store) (now : Z) (h : height) (delay : N) : outcome unit :=
+  (** ** client_state.go: verifyDelayPeriodPassed.  The uint64 addition wraps;
+      since fix ea14df6 a wrapped sum (validTime < processedTime) is refused. *)
+  Definition verify_delay_period_passed (s : store) (now : Z) (h : height) (delay : N) : outcome unit :=
     match get_processed_time s h with
     | None => Err
     | Some o =>
         pt <- o ;;
         let valid_time := add64 pt delay in
-        if (guard && (valid_time <? pt)%N) || (u64 now <? valid_time)%N then Err else Ok tt
+        if (valid_time <? pt)%N || (u64 now <? valid_time)%N then Err else Ok tt
+    end.
+
+  (** the gate as it was before fix ea14df6 (finding D12 / tm-delay-overflow):
+      kept for Refuted/C07_refuted.v, not part of the model of the current tree *)
+  Definition verify_delay_period_passed_old (s : store) (now : Z) (h : height) (delay : N) : outcome unit :=
+    match get_processed_time s h with
+    | None => Err
+    | Some o =>
+        pt <- o ;;
+        let valid_time := add64 pt delay in
+        if (u64 now <? valid_time)%N then Err else Ok tt
     end.
 
   (** ** client_state.go: produceVerificationArgs + VerifyPacketCommitment /
-      VerifyPacketAcknowledgement ([ack] selects the path) *)
-  Definition verify_packet (guard : bool) (cs : client_state) (s : store) (now : Z) (h : height) (proof : option bytes)
+      VerifyPacketAcknowledgement ([ack] selects the path); [gate] is the delay gate *)
+  Definition verify_packet_with (gate : store -> Z -> height -> N -> outcome unit)
+             (cs : client_state) (s : store) (now : Z) (h : height) (proof : option bytes)
              (ack : bool) (path : bytes * bytes * N) (val : bytes) : outcome unit :=
     if h_lt (cs_latest cs) h then Err else
     match proof with
@@ -617,9 +626,12 @@ Section Oracles.
     | Some pf =>
         if negb (proof_decodes pf) then Err else
         cons <- get_cons s h ;;
-        _ <- verify_delay_period_passed guard s now h (cs_delay cs) ;;
+        _ <- gate s now h (cs_delay cs) ;;
         if membership_ok cs (c_root cons) pf ack path val then Ok tt else Err
     end.
+
+  Definition verify_packet := verify_packet_with verify_delay_period_passed.
+  Definition verify_packet_old := verify_packet_with verify_delay_period_passed_old.
 
   (** ** header.go: Header.ValidateBasic (run by MsgUpdateClient.ValidateBasic) *)
   Definition header_validate_basic (hdr : header) : outcome unit :=
